@@ -8,7 +8,8 @@
 EXTENDS Naturals, Integers, Sequences
 
 \* ---- the source pages (as the harness serialises them) ----
-SrcBox(i) == IF i % 2 = 1 THEN <<100 + i, 200 + i, 400 + i, 600 + i>> ELSE <<10, 20, 310, 420>>      \* even pages inherit theirs
+SrcBox(i) == IF i = 1 THEN <<51, 701, 351, 1101>>       \* high on the sheet: lower edge above the right edge
+             ELSE IF i % 2 = 1 THEN <<100 + i, 200 + i, 400 + i, 600 + i>> ELSE <<10, 20, 310, 420>>      \* even pages inherit theirs
 SrcCrop(i) == IF i % 3 = 0 THEN <<110, 210, 390, 590>> ELSE <<>>
 SrcRot(i) == CASE i % 4 = 1 -> 0 [] i % 4 = 2 -> 90 [] i % 4 = 3 -> 0 - 90 [] OTHER -> 450
 Norm(r) == ((r % 360) + 360) % 360
